@@ -92,7 +92,19 @@ def job(spec):
     rng = np.random.default_rng(spec["seed"])
     n, c, nbits = spec["N"], spec["C"], spec["nbits"]
     top = {1: 2, 2: 4, 4: 16, 8: 256, 32: 256}[nbits]
-    if spec["data"] == "identity" and nbits == 32:
+    if spec["data"].startswith("dynrange"):
+        # 32-bit data of wide dynamic range: every tf x ff tile holds +2^24, -2^24 and small integers, so the exact tile mean is small
+        # while a float32 running sum loses the small terms (2^24 + 3 is not a float32)
+        _, tf_, ff_ = spec["data"].split(":")
+        tf_, ff_ = int(tf_), int(ff_)
+        data = rng.integers(1, 10, size=(n, c), dtype=np.int64)
+        for t0 in range(0, n - tf_ + 1, tf_):
+            for c0 in range(0, c - ff_ + 1, ff_):
+                cells = [(t0 + i, c0 + j) for i in range(tf_) for j in range(ff_)]
+                if len(cells) >= 3:
+                    data[cells[0]] = 2 ** 24
+                    data[cells[-1]] = -(2 ** 24)
+    elif spec["data"] == "identity" and nbits == 32:
         # 32-bit samples are floats: negative values and values far beyond one byte are ordinary data there
         data = (np.arange(n * c, dtype=np.int64) * 37 - 3000).reshape(n, c)
     elif spec["data"] == "random" and nbits == 32:
@@ -111,7 +123,7 @@ def job(spec):
     band.update(spec.get("band", {}))
     if band["foff"] < 0 and band["fch1"] + (c - 1) * band["foff"] < 5:
         band["fch1"] = float(5 - (c - 1) * band["foff"])
-    names = fixtures.write_set(d, f"tr_{spec['id']}", data, nbits, spec["split"], **band)
+    names = fixtures.write_set(d, f"tr_{spec['id']}", data, nbits, spec["split"], longname=(spec["id"] % 3 == 0), **band)
     files = [list(open(f, "rb").read()[-(k * c * nbits // 8):]) if k else [] for f, k in zip(names, spec["split"])]
     in_hdr, _ = fixtures.parse_sigproc(open(names[0], "rb").read())
     hdr = {"files": files, "nbits": nbits, "nchans": c, "vals": [int(x) for x in data.ravel()], "N": n}
